@@ -168,6 +168,7 @@ fn templates(r: &mut Rng) -> Vec<Op> {
         Op::ChainFirstN { n: 1 + r.below(4) },
         Op::DeferSignal,
         Op::DemuxEnum,
+        Op::LatticeFoldBatch,
         Op::Persist,
         Op::MultisetDelta,
         Op::DeferTick { lazy: false, back: None },
@@ -206,6 +207,7 @@ fn templates(r: &mut Rng) -> Vec<Op> {
             v.push(Op::Join { pers: p.clone(), multiset });
             v.push(Op::CrossJoin { pers: p.clone(), multiset });
         }
+        v.push(Op::LatticeJoinFused { pers: p.clone() });
         v.push(Op::AntiJoin { pers: p.clone() });
         v.push(Op::Difference { pers: p.clone() });
         v.push(Op::JoinFused { pers: p.clone(), lhs: Some(r.pick(&aggs).clone()), rhs: Some(r.pick(&aggs).clone()) });
@@ -230,6 +232,7 @@ fn adapters() -> Vec<Option<Op>> {
         Some(Op::Map(MapFn::ToMax)),
         Some(Op::Map(MapFn::ToSet)),
         Some(Op::Map(MapFn::ToShape)),
+        Some(Op::Map(MapFn::KeyMax)),
     ]
 }
 
